@@ -28,6 +28,7 @@ type options struct {
 	seed     int
 	workers  int
 	only     string
+	sweep    string
 	dump     string
 	verbose  bool
 	replayD  string
@@ -44,6 +45,7 @@ func main() {
 	flag.IntVar(&o.seed, "seed", 0, "seed")
 	flag.IntVar(&o.workers, "workers", 6, "parallel obligations")
 	flag.StringVar(&o.only, "only", "", "substring filter on function name (debug)")
+	flag.StringVar(&o.sweep, "sweep", "", "comma-separated package paths: give every function without a contract a safety-only contract (nopanic, pointer parameters non-nil) under property SWEEP (exploration, not a registered check)")
 	flag.StringVar(&o.dump, "dump", "", "dump SSA of function (pkgpath::name)")
 	flag.BoolVar(&o.verbose, "v", false, "verbose")
 	flag.StringVar(&o.replayD, "replaydir", "/verif/replay", "replay templates")
@@ -105,6 +107,11 @@ func run(o *options) int {
 	}
 	if o.dump != "" {
 		want[strings.SplitN(o.dump, "::", 2)[0]] = true
+	}
+	for _, sp := range strings.Split(o.sweep, ",") {
+		if sp != "" {
+			want[sp] = true
+		}
 	}
 	if len(want) == 0 {
 		fatal("no contracts for property %s", o.prop)
@@ -179,6 +186,32 @@ func run(o *options) int {
 	for path, sp := range g.pkgs {
 		for _, fn := range packageFunctions(prog, sp) {
 			byName[path+"::"+relFuncName(fn)] = fn
+		}
+	}
+	// sweep: safety-only contracts for every function of the named packages that has none
+	for _, sp := range strings.Split(o.sweep, ",") {
+		if sp == "" {
+			continue
+		}
+		for k, fn := range byName {
+			if !strings.HasPrefix(k, sp+"::") || fn.Synthetic != "" || fn.Blocks == nil {
+				continue
+			}
+			if _, has := contracts.Funcs[k]; has {
+				continue
+			}
+			if pos := prog.Fset.Position(fn.Pos()); strings.HasSuffix(pos.Filename, "_test.go") || strings.HasSuffix(pos.Filename, ".pb.go") {
+				continue
+			}
+			fs := &FuncSpec{Name: relFuncName(fn), Pkg: sp, Props: []string{"SWEEP"}, NoPanic: true, NoFrame: true, Loops: map[int]*LoopSpec{}}
+			for _, prm := range fn.Params {
+				if _, isPtr := prm.Type().Underlying().(*types.Pointer); isPtr && prm.Name() != "" && prm.Name() != "_" {
+					if e, err := parseSpecExpr(prm.Name() + " != nil"); err == nil {
+						fs.Requires = append(fs.Requires, Clause{Text: prm.Name() + " != nil", E: e})
+					}
+				}
+			}
+			contracts.Funcs[k] = fs
 		}
 	}
 	if o.dump != "" {
